@@ -66,6 +66,8 @@ LEVELS['C14'] = _mk('fault_enumeration', 'single OSError injected at the k-th mu
     'For every committed build step of generated histories the harness counts the mutating file-system calls the library makes (mkdir, makedirs, rename, replace, rmdir in _make_room, open-for-write and write of the cache file; installed from outside) and re-runs the history with an OSError at the k-th call (quick: 2 sampled k per build; thorough: every k). The call in progress is identified and the models are run with "the setup of that build_file/subbuild fails once" (or "the build aborts before the function / at the cache write"): the error must surface, a propagated error must leave the pre-build snapshot (bytes, mtime, inode), a caught one must give the same values, tree and later builds as FB.Spec/FB.Impl with that call failed, no temp dir may be left. '
     'No theorem is specific to C14 yet.',
     'Errors the library swallows by design in best-effort clean-ups (_remove_empty_dirs, restore_all) are not injected.')
+LEVELS['C11'] = _mk('translation_validation', 'metamorphic run (every value that crossed the API is mutated in place after use) against the plain run and against the value-semantics model',
+    'Every generated history is executed twice on the real code: plainly, and with user code that mutates in place every container it received or handed over (arguments inside the function, the caller\'s argument objects after the call, the object a function returned, values returned by build_file/subbuild fresh and cached, list_dir/walk results). Results, invocation logs, trees and the decoded cache files of the two runs must be identical; the mutating run must also agree with FB.Impl, which has value semantics by construction. No heap-model theorem yet.',
+    'Edges are those listed in the evidence; mutation = append/delete on lists, new key on dicts, recursively.')
 NOT_YET = {
-    'C11': 'aliasing: the heap model and the alias slice are not built yet',
 }
